@@ -601,6 +601,7 @@ class Concretiser:
         self.scn = scn
         self.m = model
         self.blob_bytes = {}
+        self.blob_seed = {}
 
     def ev(self, t):
         if not is_sym(t):
@@ -636,8 +637,28 @@ class Concretiser:
             n = self.ev(b.len)
             if n > (64 << 20):
                 raise Unreplayable("blob %s of %d bytes" % (b.name, n))
-            self.blob_bytes[id(b)] = gen_bytes(b.seed, n)
+            # The model takes distinct digests to lie in distinct first-level directories (stated
+            # assumption).  Pick generated bytes that respect it, so that a replay does not run into a
+            # 1-in-256 coincidence the model did not intend.
+            seed = b.seed
+            for _try in range(64):
+                data = gen_bytes(seed, n)
+                if not self._prefix_clash(data):
+                    break
+                seed += 1000
+            self.blob_seed[id(b)] = seed
+            self.blob_bytes[id(b)] = data
         return self.blob_bytes[id(b)]
+
+    def _prefix_clash(self, data):
+        others = [x for x in self.blob_bytes.values() if x != data]
+        if not others:
+            return False
+        for algo in ("sha1", "sha256", "sha384", "sha512"):
+            mine = hashlib.new(algo, data).digest()[0]
+            if any(hashlib.new(algo, x).digest()[0] == mine for x in others):
+                return True
+        return False
 
     def bytes_of(self, s):
         s = SBytes.of(s)
@@ -687,8 +708,9 @@ class Concretiser:
             seg = s.segs[0]
             n = self.ev(seg.blob.len)
             bb = self.blob(seg.blob)
-            if len(bb) == n and bb == gen_bytes(seg.blob.seed, n):
-                return {"gen": seg.blob.seed, "len": n, "a": self.ev(seg.a), "b": self.ev(seg.b)}
+            seed = self.blob_seed.get(id(seg.blob), seg.blob.seed)
+            if len(bb) == n and bb == gen_bytes(seed, n):
+                return {"gen": seed, "len": n, "a": self.ev(seg.a), "b": self.ev(seg.b)}
             return {"hex": bb[self.ev(seg.a):self.ev(seg.b)].hex()}
         return {"hex": self.bytes_of(s).hex()}
 
